@@ -1,4 +1,5 @@
 import Postcard.Props.C02
+import Postcard.Props.C05Collect
 -- property theorems of C02: every one must depend only on propext / Classical.choice / Quot.sound
 #print axioms Postcard.enc_eq_spec
 #print axioms Postcard.encList_eq_spec_tys
@@ -18,3 +19,5 @@ import Postcard.Props.C02
 #print axioms Postcard.permitted_canonical
 #print axioms Postcard.zigzag_eq_spec
 #print axioms Postcard.leBytes_eq_spec
+#print axioms Postcard.collect_alloc
+#print axioms Postcard.collect_pieces_irrelevant
